@@ -100,6 +100,16 @@ class TracedECU(ECU):
     """Real ECU; only adds Arrive/Done records around the public request/reconnect entry points."""
 
     env: MutexEnv
+    tp_in_hook = False
+
+    async def connect(self) -> None:
+        """The documented hook run by reconnect() with the client mutex held.  A vendor ECU class may (re)start
+        its cyclic tester present here: the worker task is then CREATED while the mutex is held."""
+        await super().connect()
+        if self.tp_in_hook:
+            if self.tester_present_task is not None:
+                await self.stop_cyclic_tester_present()
+            await self.start_cyclic_tester_present(0.2)
 
     async def _request(self, request: service.UDSRequest, config: UDSRequestConfig | None = None) -> service.UDSResponse:
         self.env.rec(e="Arrive", req=req_id(request.pdu))
@@ -128,7 +138,7 @@ class TracedECU(ECU):
 
 
 def run_schedule(chooser: Any, order: list[str], *, kinds: dict[str, str], tp: bool, retry: int,
-                 scripts: list[str]) -> dict[str, Any]:
+                 scripts: list[str], tp_in_hook: bool = False) -> dict[str, Any]:
     """order: caller names in arrival order; kinds[name] in {"req", "reconnect"}."""
     env = MutexEnv(chooser, scripts)
     info: dict[str, Any] = {"pending": []}
@@ -137,6 +147,7 @@ def run_schedule(chooser: Any, order: list[str], *, kinds: dict[str, str], tp: b
         tr = ScriptedTransport(env)
         ecu = TracedECU(tr, timeout=1.0, max_retry=retry)
         ecu.env = env
+        ecu.tp_in_hook = tp_in_hook
         tasks: dict[str, asyncio.Task[Any]] = {}
         delays = {n: [0.0, 0.25][chooser.choose(2)] for n in order}
         # cancellation: none | victim's k-th transport call | a point in time
@@ -168,7 +179,7 @@ def run_schedule(chooser: Any, order: list[str], *, kinds: dict[str, str], tp: b
             info["pending"].append(t.get_name())
         for t in done:
             t.exception() if not t.cancelled() else None
-        if tp:
+        if ecu.tester_present_task is not None:
             await ecu.stop_cyclic_tester_present()
         for t in pend:
             t.cancel()
@@ -269,6 +280,14 @@ def run(tier: str, seed: int) -> Report:
         for order in itertools.permutations(three):
             plans.append((list(order), {"c1": "req", "c2": "req", "c3": "reconnect"}, True, 1, ["imm", "pend", "late", "err"]))
     limit = 1500 if tier == "quick" else 40000
+    # the tester-present worker (re)started inside the connect() hook, i.e. while reconnect() holds the mutex
+    for order in itertools.permutations(three):
+        def runit_h(ch: Any, order: tuple[str, ...] = order) -> dict[str, Any]:
+            return run_schedule(ch, list(order), kinds={"c1": "req", "c2": "reconnect", "c3": "req"}, tp=True, retry=1,
+                                scripts=["imm", "pend", "late"], tp_in_hook=True)
+
+        for _vec, t in explore(runit_h, 8 if tier == "quick" else 11, limit=300 if tier == "quick" else 20000):
+            add(t, "enum-3callers-tp-started-in-connect-hook")
     for order, kinds, tp, retry, scripts in plans:
         def runit(ch: Any, order: list[str] = order, kinds: dict[str, str] = kinds, tp: bool = tp, retry: int = retry,
                   scripts: list[str] = scripts) -> dict[str, Any]:
